@@ -7,30 +7,75 @@ import (
 	"strings"
 )
 
-// The request function ("getFromAPI") is identified by its role, not its name: the one method of Datasource with
-// the signature func(context.Context, string, interface{}) error (context, URL, decode target).
+// c20GetRoles: where the request function takes its four inputs: index in the parameter list, -1 = the receiver.
+type c20GetRoles struct{ ds, ctx, url, item int }
+
+// The request function ("getFromAPI") is identified by its role, not its name: the one function or method of the
+// package whose inputs (receiver included) are exactly a *Datasource, a context.Context, a string (the URL) and an
+// interface{} (the decode target), in any order, and whose result is an error.
 func c20FindGet(cx *c20Ctx) *FuncInfo {
 	var found []*FuncInfo
+	var roles []c20GetRoles
 	for _, fi := range cx.funcs {
 		sig := c20Sig(fi.Obj)
-		if sig.Recv() == nil || namedPath(sig.Recv().Type()) != cx.dsType || sig.Params().Len() != 3 || sig.Results().Len() != 1 {
+		if sig.Results().Len() != 1 || !c20IsErrorType(sig.Results().At(0).Type()) {
 			continue
 		}
-		if !c20IsCtx(sig.Params().At(0).Type()) || !c20IsErrorType(sig.Results().At(0).Type()) {
-			continue
+		ro := c20GetRoles{ds: -2, ctx: -2, url: -2, item: -2}
+		n, ok := 0, true
+		classify := func(t types.Type, idx int) {
+			n++
+			switch {
+			case namedPath(t) == cx.dsType && ro.ds == -2:
+				ro.ds = idx
+			case c20IsCtx(t) && ro.ctx == -2:
+				ro.ctx = idx
+			default:
+				if b, isB := t.Underlying().(*types.Basic); isB && b.Info()&types.IsString != 0 && ro.url == -2 {
+					ro.url = idx
+				} else if it, isI := t.Underlying().(*types.Interface); isI && it.Empty() && ro.item == -2 {
+					ro.item = idx
+				} else {
+					ok = false
+				}
+			}
 		}
-		if b, ok := sig.Params().At(1).Type().Underlying().(*types.Basic); !ok || b.Info()&types.IsString == 0 {
-			continue
+		if sig.Recv() != nil {
+			classify(sig.Recv().Type(), -1)
 		}
-		if it, ok := sig.Params().At(2).Type().Underlying().(*types.Interface); !ok || !it.Empty() {
+		for i := 0; i < sig.Params().Len(); i++ {
+			classify(sig.Params().At(i).Type(), i)
+		}
+		if !ok || n != 4 || ro.ds == -2 || ro.ctx == -2 || ro.url == -2 || ro.item == -2 || sig.Variadic() {
 			continue
 		}
 		found = append(found, fi)
+		roles = append(roles, ro)
 	}
 	if len(found) != 1 {
 		return nil
 	}
+	cx.get = roles[0]
 	return found[0]
+}
+
+// getKey: the input key of a role inside the request function ("recv", "p1", ...).
+func (cx *c20Ctx) getKey(idx int) string {
+	if idx < 0 {
+		return "recv"
+	}
+	return "p" + c20Itoa(int64(idx))
+}
+
+// getArg: the value a request event passes for a role.
+func (cx *c20Ctx) getArg(ev c20Event, idx int) c20V {
+	if idx < 0 {
+		return ev.recv
+	}
+	if idx < len(ev.args) {
+		return ev.args[idx]
+	}
+	return c20Unknown("missing argument")
 }
 
 // c20GetRun is the symbolic execution of the request function for one concrete response status.
@@ -93,7 +138,7 @@ func (cx *c20Ctx) limiterKey() (string, string) {
 	if name == "" {
 		return "", ""
 	}
-	return "recv." + name, name
+	return cx.getKey(cx.get.ds) + "." + name, name
 }
 
 // doOK: the one Do event of the path, when Do is known to have succeeded on it.
